@@ -33,9 +33,10 @@ def cases(tier, seed):
     out = []
     n = 200 if tier == "quick" else 3600
     stages = ["leaves"] * 5 + ["u8", "f16", "doone", "mtan", "mtan", "mwcs"]
+    combos = [(st_, pr_) for st_ in stages for pr_ in PROFS]  # every (stage, profile) pair, in a seeded random order
+    R.shuffle(combos)
     for i in range(n):
-        st = stages[i % len(stages)]
-        prof = PROFS[(i // len(stages) + i) % len(PROFS)]
+        st, prof = combos[i % len(combos)]
         par = R.choice([2, 3, 5, 8] if tier == "quick" else [2, 3, 5, 8, 16])
         if prof == "burst":
             par = R.choice([16, 32])
@@ -456,6 +457,7 @@ def _result(spec, v, recs, log, items, shape):
     lc = models.log_counters(recs)
     counters = collections.Counter()
     counters["runs_stage_" + spec["stage"]] += 1
+    counters["runs_%s_%s" % (spec["stage"], spec["profile"])] += 1
     counters["runs_profile_" + spec["profile"]] += 1
     counters["runs_k%d" % spec["par"]] += 1
     for k in ("events", "worker_timeouts", "timeouts_while_pending", "timeouts_before_event_set", "timeouts_after_event_set", "owner_puts_delayed_gt5ms", "put_full"):
@@ -493,6 +495,10 @@ def finish(agg, tier):
     c = agg["counters"]
     miss = [s for s in ("leaves", "u8", "f16", "doone", "mtan", "mwcs") if c.get("runs_stage_" + s, 0) < 3]
     miss += [p for p in PROFS if c.get("runs_profile_" + p, 0) < 1]
+    for st_ in ("leaves", "u8", "doone", "mtan", "mwcs"):
+        for pr_ in ("slow_feeder", "slow_workers", "late_start"):
+            if c.get("runs_%s_%s" % (st_, pr_), 0) < 1:
+                miss.append("%s under %s" % (st_, pr_))
     if c.get("log_timeouts_before_event_set", 0) < 1:
         miss.append("worker time-outs before the shutdown signal")
     if c.get("log_timeouts_after_event_set", 0) < 1:
